@@ -253,6 +253,12 @@ def judge(sc, ob, kind, expect):
         probs.append("asked for confirmation although forced")
     if sc.get("via_main") and (ob["status"] == 0) != success:
         probs.append(f"exit status {ob['status']}")
+    if success and isinstance(sc.get("ksr"), dict):
+        # every requested signature came back from the token attached to THIS ceremony
+        need = sum(len(SCHEMAS[sc.get("schema", "one")][i]["sign"]) for i in range(1, len(sc["ksr"]["bundles"]) + 1) if i in SCHEMAS[sc.get("schema", "one")])
+        made = sum(1 for e in ob["sign_log"] if e.get("result") is not None)
+        if made < need:
+            probs.append(f"the run succeeded although the token attached to this ceremony returned only {made} of the {need} requested signatures")
     if changed and ob["after"] is not None and success:
         # the written SKR must carry every requested signature, and each must verify (dnspython) over the published key set
         try:
